@@ -145,6 +145,10 @@ class FakeWriter:
         return None
 
 
+class LoopGuard(Exception):
+    """the client keeps reading a connection that is at EOF (it would spin forever)"""
+
+
 class FakeConnection(Connection):
     """wpull's Connection with connect() replaced: no socket, scripted reader."""
 
@@ -152,6 +156,24 @@ class FakeConnection(Connection):
         super().__init__(address)
         self._script = (wire, log, tag, limit, net)
         self.script_reader = None       # survives Connection.close()
+        self._eof_reads = 0
+
+    def _guard(self):
+        r = self.script_reader
+        if r is not None and r.at_eof():
+            self._eof_reads += 1
+            if self._eof_reads > 20:
+                raise LoopGuard('read number %d at EOF' % self._eof_reads)
+
+    @asyncio.coroutine
+    def readline(self):
+        self._guard()
+        return (yield from super().readline())
+
+    @asyncio.coroutine
+    def read(self, amount=-1):
+        self._guard()
+        return (yield from super().read(amount))
 
     @asyncio.coroutine
     def connect(self):
